@@ -65,11 +65,15 @@ class HandlerSystem:
             self.store = mem.MemoryWorkflowStore(max_completed=None if k < 0 else k)
         else:
             if shared is not None:
-                self.store, self._side = shared
-                c = self._side if self._side is not None else self.store._persistent_conn
-                c.execute("DELETE FROM handlers")
-                c.commit()
-            else:
+                try:
+                    self.store, self._side = shared
+                    c = self._side if self._side is not None else self.store._persistent_conn
+                    c.execute("DELETE FROM handlers")
+                    c.commit()
+                except sqlite3.Error:            # the code under test closed its own connection: fresh store
+                    shared = None
+                    self._side = None
+            if shared is None:
                 path = os.path.join(str(dbdir), "handlers_%d.db" % next(evdrv._counter))
                 self.store = sq.SqliteWorkflowStore(path, single_connection=single)
                 if not single:
@@ -132,7 +136,12 @@ class HandlerSystem:
                 raise ValueError(op["op"])
         except Exception as e:      # recorded, judged by the observer (clause no_error)
             ev["exc"] = type(e).__name__
-        ev["rows"] = self.rows()
+        try:
+            ev["rows"] = self.rows()
+        except sqlite3.Error as e:
+            ev["rows"] = []
+            if ev["exc"] == "-":
+                ev["exc"] = "contents:" + type(e).__name__
         ev["tq"] = self.queue()
         return ev
 
